@@ -21,6 +21,7 @@ import (
 	"fmt"
 	"net"
 	"sort"
+	"sync/atomic"
 	"testing"
 	"time"
 
@@ -430,3 +431,143 @@ func runtimeFinal(status map[networkv1beta1.CNIStatus]*networkv1beta1.CNIStatusI
 }
 
 func TestVerifC09Runtime(t *testing.T) { vt.Run(t, c09rGen, c09rRun) }
+
+// ------------------------------------------------------------------ the GC loop itself
+
+// TestVerifC09Loop runs the real startGarbageCollectionLoop (its period scaled down through
+// the build overlay, see zz_verif_c09_export.go) over a store with vanished and running
+// pods while the first passes fail (the local pod list cannot be read): "a pod whose
+// cleanup cannot proceed does not prevent the other pods from being collected ... within
+// two passes" presupposes that passes keep coming after a failed one.
+type c09lScenario struct {
+	FailFirst int  `json:"fail_first"` // number of initial passes whose pod list fails
+	Vanished  int  `json:"vanished"`
+	Running   int  `json:"running"`
+	LateFail  bool `json:"late_fail,omitempty"` // one more failing pass after the first good one
+}
+
+func c09lGen(t *rapid.T) c09lScenario {
+	return c09lScenario{
+		FailFirst: rapid.IntRange(0, 3).Draw(t, "failfirst"),
+		Vanished:  rapid.IntRange(1, 3).Draw(t, "vanished"),
+		Running:   rapid.IntRange(0, 2).Draw(t, "running"),
+		LateFail:  rapid.Bool().Draw(t, "latefail"),
+	}
+}
+
+func c09lRun(c *vt.Ctx, s c09lScenario) {
+	n := s.Vanished + s.Running
+	cloud := cloudsim.New()
+	cloud.AddENI("secondary", n+1, 0)
+	e := cloud.Snapshot()["eni-1"]
+	var v4 []string
+	for _, a := range cloudsim.SortedAddrs(e.V4) {
+		if a != e.Primary {
+			v4 = append(v4, a.String())
+		}
+	}
+	k := vsNewK8s()
+	dir := vsScratchDir()
+	dbPath := dir + "/pod.db"
+	db, err := vsOpenDB(dbPath)
+	if err != nil {
+		c.Fatalf("open db: %v", err)
+	}
+	for i := 0; i < n; i++ {
+		name := fmt.Sprintf("g%d", i)
+		info := &daemon.PodInfo{Name: name, Namespace: "ns", PodNetworkType: daemon.PodNetworkTypeENIMultiIP, PodUID: fmt.Sprintf("uid-%d", i)}
+		item := daemon.ResourceItem{Type: daemon.ResourceTypeENIIP, IPv4: v4[i], ID: fmt.Sprintf("%s.%s", e.MAC, v4[i]), ENIID: e.ID, ENIMAC: e.MAC}
+		nc := []*rpc.NetConf{{BasicInfo: &rpc.BasicInfo{PodIP: &rpc.IPSet{IPv4: v4[i]}}, ENIInfo: &rpc.ENIInfo{MAC: e.MAC}, DefaultRoute: true}}
+		ncb, _ := json.Marshal(nc)
+		cid := "cid-" + name
+		netns := "/proc/1/ns/net"
+		if err := db.Put(vsKey("ns", name), daemon.PodResources{PodInfo: info, Resources: []daemon.ResourceItem{item}, ContainerID: &cid, NetNs: &netns, NetConf: string(ncb)}); err != nil {
+			c.Fatalf("put: %v", err)
+		}
+		vp := &vsPod{info: info}
+		if i >= s.Vanished {
+			vp.exists, vp.local = true, true
+		}
+		k.pods[vsKey("ns", name)] = vp
+		ci := *info
+		k.cached[vsKey("ns", name)] = &ci
+	}
+	_ = storage.VerifClose(db)
+	w, err := vsStart(vsPoolCfg{Cap: n + 2, Batch: 2, MaxIdle: 2 * (n + 2), PreENIs: []int{n + 1}}, cloud, k, dir, dbPath)
+	if err != nil {
+		c.Fatalf("service start failed: %v", err)
+	}
+	defer w.cleanup()
+	if !w.waitQuiescent(2 * time.Second) {
+		c.Inconclusive("pool not quiescent after start")
+	}
+	if s.FailFirst > 0 {
+		c.Label("first-passes-fail")
+		c.NonTrivial()
+	}
+
+	k.mu.Lock()
+	k.localErrs = s.FailFirst
+	k.mu.Unlock()
+	callsBefore := verifGCPeriodCalls.Load()
+	atomic.StoreInt64(&VerifGCPeriodDivisor, int64(gcPeriod/(2*time.Millisecond))) // 2 ms period
+	defer atomic.StoreInt64(&VerifGCPeriodDivisor, 1)
+	ctx, cancel := context.WithCancel(context.Background())
+	loopDone := make(chan struct{})
+	go func() { w.svc.startGarbageCollectionLoop(ctx); close(loopDone) }()
+	defer func() {
+		cancel()
+		select {
+		case <-loopDone:
+		case <-time.After(5 * time.Second):
+		}
+	}()
+
+	passes := func() int {
+		k.mu.Lock()
+		defer k.mu.Unlock()
+		return k.localCalls
+	}
+	waitPasses := func(want int, what string) {
+		deadline := time.Now().Add(8 * time.Second)
+		for passes() < want {
+			select {
+			case <-loopDone:
+				if verifGCPeriodCalls.Load() == callsBefore {
+					c.Inconclusive("the GC loop's period is not scaled in this build")
+				}
+				c.Fatalf("the garbage collection loop ended after %d passes (%s); %d passes had failed because the pod list could not be read", passes(), what, s.FailFirst)
+			default:
+			}
+			if time.Now().After(deadline) {
+				if verifGCPeriodCalls.Load() == callsBefore {
+					c.Inconclusive("the GC loop's period is not scaled in this build")
+				}
+				c.Fatalf("no further GC pass within 8s (period 2ms): %d passes so far (%s)", passes(), what)
+			}
+			time.Sleep(500 * time.Microsecond)
+		}
+	}
+	// the failing passes, then two good ones
+	waitPasses(s.FailFirst+2, "waiting for two passes after the failing ones")
+	if s.LateFail {
+		k.mu.Lock()
+		k.localErrs = 1
+		k.mu.Unlock()
+		waitPasses(passes()+3, "after one more failing pass")
+	} else {
+		waitPasses(passes()+1, "one more pass")
+	}
+	for i := 0; i < n; i++ {
+		name := fmt.Sprintf("g%d", i)
+		_, has := w.record(name)
+		if i < s.Vanished && has {
+			c.Fatalf("vanished pod %s is still recorded after %d passes (%d of them failed to read the pod list)", name, passes(), s.FailFirst)
+		}
+		if i >= s.Vanished && !has {
+			c.Fatalf("running pod %s lost its record to the GC loop", name)
+		}
+	}
+}
+
+func TestVerifC09Loop(t *testing.T) { vt.Run(t, c09lGen, c09lRun) }
